@@ -32,7 +32,7 @@ class Raised(Exception):
         self.node = node
 
 
-SAFE_STR_METHODS = {'startswith', 'endswith', 'lower', 'upper', 'strip', 'lstrip', 'rstrip', 'isidentifier',
+SAFE_STR_METHODS = {'isdecimal', 'isnumeric', 'isspace', 'isascii', 'startswith', 'endswith', 'lower', 'upper', 'strip', 'lstrip', 'rstrip', 'isidentifier',
                     'isalpha', 'isalnum', 'isupper', 'islower', 'isdigit', 'split', 'rsplit', 'casefold',
                     'removeprefix', 'removesuffix', 'capitalize', 'title', 'replace', 'join', 'splitlines', 'isdigit', 'isupper',
                     'count', 'find', 'index', 'format', 'zfill', 'ljust', 'rjust', 'center', 'expandtabs', 'partition', 'rpartition'}
